@@ -43,6 +43,7 @@ def run_variant(case, name, seed):
     tmp = None
     if name == "logging":
         opts = {"execution_logging": True, "debug": True}
+        c["verboseLogging"] = True      # the level stays DEBUG during the run: every log statement is evaluated
     elif name == "profile":
         opts = {"profile": True, "execution_logging": True}
     elif name == "logfile":
@@ -193,6 +194,13 @@ class C06(SimCheck):
             scn["escapeAt"] = r.choice([1, 1, 2, 3])
             scn["profile"]["pBadDst"] = 0.35
         cfg["failRate"] = fbits(r.choice([0.25, 0.5, 0.5, 0.75, 0.0]))
+        if r.random() < 0.4:
+            # everything at once: nodes on the move while lossy, delayed messages are in flight - what a diagnostic
+            # does on delivery (under debug logging, profiling, pacing ...) must not touch the random stream (seeded C06_L)
+            simgen.set_handler(cfg, "mobility", True)
+            cfg["delay"] = r.choice([512, 1024, 1536])
+            cfg["failRate"] = fbits(r.choice([0.25, 0.5]))
+            scn["profile"]["w"] = dict(scn["profile"]["w"], goto=4, setSpeed=1, send=4, broadcast=3)
         if cfg["hasMob"] and cfg["duration"] is None and cfg["maxIter"] is None:
             cfg["duration"] = 4096
         if cfg["nNodes"] < 2:
